@@ -221,6 +221,9 @@ ExitStatus ParseExitStatus(int status) {
     if (WTERMSIG(status) == SIGINT || WTERMSIG(status) == SIGTERM
         || WTERMSIG(status) == SIGHUP)
       return ExitInterrupted;
+    // Any other signal: signal+128, like a shell reports it.  (The raw
+    // status also carries the "core dumped" flag next to the signal number.)
+    return static_cast<ExitStatus>(WTERMSIG(status) + 128);
   }
   // At this point, we exit with any other signal+128
   return static_cast<ExitStatus>(status + 128);
